@@ -66,6 +66,11 @@ SCALARS = {"py2": 2, "py0.5": 0.5, "npint64_2": np.int64(2), "npfloat32_2": np.f
 BIG = 65536  # a plain python int whose products leave the int16 / float16 range: the result must have been widened, not wrapped
 
 
+# arrays assigned through the frequencies / errors2 setters: tag -> (dtype or "same" or "list", non-integral?)
+ASSIGN = {"same": ("same", False), "int64": ("int64", False), "list_int": ("list", False), "float64_integral": ("float64", False),
+          "float64_frac": ("float64", True), "float32_frac": ("float32", True)}
+
+
 def scalar_is_int(tag):
     return tag in ("py2", "npint64_2", "py4")
 
@@ -142,6 +147,10 @@ class DtypeSystem(H.System):
             ops.append(("partial_normalize_inplace", 1))
         for t in DTYPES + BAD_DTYPES:
             ops.append(("set_dtype", t))
+        # direct assignment of contents / squared errors (public setters)
+        for what in ("set_frequencies", "set_errors2"):
+            for tag in ASSIGN:
+                ops.append((what, tag))
         return ops
 
     def describe(self, hist, op):
@@ -191,6 +200,7 @@ class DtypeSystem(H.System):
         terminal = False
         inplace = True
         approx = False
+        either = False
         # ---- perform
         if name == "fill":
             w = weight_obj(arg)
@@ -328,6 +338,31 @@ class DtypeSystem(H.System):
             else:
                 c = [c[0] + c[2], c[1] + c[3]]
                 e2 = [e2[0] + e2[2], e2[1] + e2[3]]
+        elif name in ("set_frequencies", "set_errors2"):
+            dt_tag, fractional = ASSIGN[arg]
+            n = len(c)
+            newv = ([0.5, 0.25, 2.0, 1.5] if fractional else [3, 1, 0, 2])[:n]
+            if dt_tag == "list":
+                value = newv if self.dim == 1 else [newv[:2], newv[2:]]
+            else:
+                value = np.array(newv, dtype=cur if dt_tag == "same" else np.dtype(dt_tag))
+                if dt_tag == "same" and cur.kind != "f":
+                    pass
+                if self.dim == 2:
+                    value = value.reshape(2, 2)
+            if dt_tag == "same" and fractional:
+                raise ValueError("no such case")
+            attr = "frequencies" if name == "set_frequencies" else "errors2"
+            res = call(lambda: setattr(obj, attr, value))
+            if name == "set_frequencies":
+                c = [frac(float(x)) for x in newv]
+            else:
+                e2 = [frac(float(x)) for x in newv]
+            # the statement fixes neither the resulting dtype nor whether a value of another kind is taken at all
+            # (a refusal that changes nothing is as good as a promotion): judged are consistency and exact values
+            either = dt_tag != "same"
+            if fractional or cur.kind == "f":
+                expect_kind = "f"
         elif name == "set_dtype":
             try:
                 target = np.dtype(arg)
@@ -374,6 +409,11 @@ class DtypeSystem(H.System):
                 if name == "set_dtype" or not only_dtype:
                     vs.append(mk("refused_unchanged", f"refused_but_changed|{sb}|{'+'.join(sorted(d))}", "snapshot unchanged", d))
                 vs.extend(mk(o, f"{o}|{sb}|after_refusal", e, ob) for o, e, ob in self.consistency(obj))
+            return None, vs, False
+        if not res.ok and either:
+            after = self.snap(obj)
+            if after != before:
+                vs.append(mk("refused_unchanged", f"refused_but_changed|{sb}|{'+'.join(sorted(diff(before, after)))}", "snapshot unchanged", diff(before, after)))
             return None, vs, False
         if not res.ok:
             vs.append(mk("must_succeed", f"must_succeed|{sb}|{arg}|from={cur.name}|{exc_sig(res.exc)}", "accepted", res.describe()))
@@ -464,6 +504,78 @@ def eval_construct(case):
     return out
 
 
+# contents handed to the class constructors: tag -> (array factory, exact values)
+CTOR_VALUES = {
+    "int": lambda n: np.array([1, 0, 2, 4][:n], dtype=np.int64),
+    "int32": lambda n: np.array([1, 0, 2, 4][:n], dtype=np.int32),
+    "float_integral": lambda n: np.array([1.0, 0.0, 2.0, 4.0][:n]),
+    "float_frac": lambda n: np.array([0.5, 0.0, 2.25, 4.0][:n]),
+    "float32_frac": lambda n: np.array([0.5, 0.0, 2.25, 4.0][:n], dtype=np.float32),
+    "big": lambda n: np.array([40000, 0, 70000, 1][:n], dtype=np.int64),
+    "list_frac": lambda n: [0.5, 0.0, 2.25, 4.0][:n],
+}
+
+
+def fits(values, dtype):
+    """Can every value be stored exactly in dtype?"""
+    dt = np.dtype(dtype)
+    for x in values:
+        fx = frac(float(x))
+        if dt.kind in "iu":
+            info = np.iinfo(dt)
+            if fx.denominator != 1 or not (info.min <= fx <= info.max):
+                return False
+        else:
+            with np.errstate(over="ignore"):
+                r = float(dt.type(float(x)))
+            if r != float(x):
+                return False
+    return True
+
+
+def eval_class_construct(case):
+    """Histogram1D / Histogram2D(bins, frequencies, errors2=..., dtype=...): whatever is accepted is stored exactly and
+    reported consistently; what fits the requested type (or no type is requested) is accepted."""
+    from physt.types import Histogram1D, Histogram2D
+
+    dim = case["dim"]
+    n = 3 if dim == 1 else 4
+    f = CTOR_VALUES[case["f"]](n)
+    e = None if case["e2"] is None else CTOR_VALUES[case["e2"]](n)
+    fv = [float(x) for x in (f if isinstance(f, list) else f.tolist())]
+    ev = [abs(x) for x in fv] if e is None else [float(x) for x in (e if isinstance(e, list) else e.tolist())]
+    kw = {}
+    if case["dtype"] is not None:
+        kw["dtype"] = np.dtype(case["dtype"])
+    if dim == 1:
+        res = call(lambda: Histogram1D(EDGES.copy(), f, errors2=e, **kw))
+    else:
+        sh2 = (lambda a: a if a is None else (np.asarray(a).reshape(2, 2) if not isinstance(a, list) else [a[:2], a[2:]]))
+        res = call(lambda: Histogram2D([np.array([0.0, 1.0, 2.0]), np.array([0.0, 1.0, 2.0])], sh2(f), errors2=sh2(e), **kw))
+    fk = "frac" if "frac" in case["f"] else case["f"]
+    ek = "none" if case["e2"] is None else ("frac" if "frac" in case["e2"] else case["e2"])
+    sig = f"class_construct|f={fk}|e2={ek}|dtype={'none' if case['dtype'] is None else kind_of(case['dtype'])}"
+    out = []
+    must = case["dtype"] is None or (fits(fv, case["dtype"]) and fits(ev, case["dtype"]))
+    if not res.ok:
+        if must:
+            out.append(V("must_succeed", f"must_succeed|{sig}|{exc_sig(res.exc)}", case, "a histogram (every value fits)", res.describe()))
+        return out, "refused"
+    hh = res.value
+    dt = np.dtype(hh.dtype)
+    if hh.frequencies.dtype != dt or hh.errors2.dtype != dt:
+        out.append(V("dtype_consistency", f"dtype_consistency|{sig}", case, str(dt), [str(hh.frequencies.dtype), str(hh.errors2.dtype)]))
+    if case["dtype"] is not None and dt != np.dtype(case["dtype"]):
+        out.append(V("dtype_requested", f"dtype_requested|{sig}", case, case["dtype"], str(dt)))
+    gotf = [float(x) for x in hh.frequencies.ravel().tolist()]
+    gote = [float(x) for x in hh.errors2.ravel().tolist()]
+    if gotf != fv:
+        out.append(V("values_frequencies", f"values_lost|frequencies|{sig}", case, fv, gotf))
+    if gote != ev:
+        out.append(V("values_errors2", f"values_lost|errors2|{sig}", case, ev, gote))
+    return out, "accepted"
+
+
 def eval_adaptive_mixed(case):
     """a + b / a += b for adaptive fixed-width histograms of every dtype pair whose bins differ (both get re-binned)."""
     from physt import h1, h2
@@ -522,6 +634,7 @@ def units(tier, seed):
             us.append({"kind": "bfs", "config": {"dim": dim, "start": start, "depth": depth}})
     us.append({"kind": "construct"})
     us.append({"kind": "adaptive_mixed"})
+    us.append({"kind": "class_construct"})
     return us
 
 
@@ -534,6 +647,18 @@ def run_unit(unit, ctx):
         for k in seen:
             p.outcome(k[0])
         p.sample({"config": unit["config"], "a_state_history": H.listify(list(seen.values())[-1][3])})
+    elif unit["kind"] == "class_construct":
+        for dim in (1, 2):
+            for fk in CTOR_VALUES:
+                for ek in [None] + list(CTOR_VALUES):
+                    for dtype in [None] + DTYPES:
+                        case = {"ctor": True, "dim": dim, "f": fk, "e2": ek, "dtype": dtype}
+                        vs, label = eval_class_construct(case)
+                        p.ev(True)
+                        p.states += 1
+                        p.outcome("class_construct:" + label)
+                        p.extend(vs)
+        p.sample(case)
     elif unit["kind"] == "adaptive_mixed":
         for dim in (1, 2):
             for ta in DTYPES:
@@ -558,6 +683,8 @@ def run_unit(unit, ctx):
 
 
 def replay(case):
+    if case.get("ctor"):
+        return eval_class_construct(case)[0]
     if "fn" in case:
         return eval_construct(case)
     if "a" in case and "dim" in case:
